@@ -179,6 +179,21 @@ func (rb *ResponseBuffer) Write(buf []byte) (int, error) {
 	return rb.Buffer.Write(buf)
 }
 
+// Flush implements http.Flusher. While the response is being buffered
+// nothing has been committed to the underlying ResponseWriter yet, so there
+// is nothing to flush: passing the call through would commit an implicit
+// 200 header (without the buffered header fields) behind the back of
+// whoever writes the buffered response later. Like net/http, a Flush before
+// the header was written implies WriteHeader(http.StatusOK).
+func (rb *ResponseBuffer) Flush() {
+	if !rb.wroteHeader {
+		rb.WriteHeader(http.StatusOK)
+	}
+	if rb.stream {
+		rb.ResponseWriterWrapper.Flush()
+	}
+}
+
 // Buffered returns whether rb has decided to buffer the response.
 func (rb *ResponseBuffer) Buffered() bool {
 	return !rb.stream
